@@ -204,6 +204,18 @@ def run(ctx, rep):
     c13.fresh_decoder_per_lane(ctx, rep, f, cg)
 
 
+def _texts(v):
+    """templates of the format!-built strings inside an evaluated value (Agg fields, array elements)"""
+    from ..thir import Str as _Str, Agg as _Agg
+    if isinstance(v, _Str):
+        return [v.text] if v.text else []
+    if isinstance(v, _Agg):
+        return [t for x in v.fields.values() for t in _texts(x)]
+    if isinstance(v, tuple):
+        return [t for x in v for t in _texts(x)]
+    return []
+
+
 # ------------------------------------------------------------------ R20.1
 def r201(ctx, rep, f, ev, cg, reach):
     W = "fastpasta/src/stats/stats_validation.rs"
@@ -233,7 +245,10 @@ def r201(ctx, rep, f, ev, cg, reach):
                 und = [g for o in recs_ for g in o["guard"] if g not in ("true", "not false")]
                 codes_ = sorted({c_ for o in recs_ for c_ in re.findall(r"\[(E\d+)\]", " ".join(o["args"]))})
                 ev.strings = True
-                r_ = vkey(ev.call_fn(path, [Sym("cfg"), Sym("stats")]))
+                rv_ = ev.call_fn(path, [Sym("cfg"), Sym("stats")])
+                r_ = vkey(rv_)
+                # messages that reach the result without a push (per-key helpers collected from a list): their templates
+                codes_ = sorted(set(codes_) | {c_ for t_ in _texts(rv_) for c_ in re.findall(r"\[(E\d+)\]", t_)})
                 got[case] = (codes_, "Err" if r_.startswith("Result::Err(") else ("Ok" if r_.startswith("Result::Ok(") else r_[:60]), bool(und))
             except Unsupported as e:
                 got[case] = ("unevaluable: %s" % e,)
